@@ -70,10 +70,15 @@ func VerifC08_Refresh() {
 	// Not claimed: the environment refuses, persistently, to open the database directory at its live
 	// name. No implementation can serve lookups then; the store must fail closed (checked) and the
 	// situation lasts until the directory can be opened again (restart).
+	// ... nor can anybody serve when, after a refused move-in, the OS also refuses to move the previous
+	// database back (double fault): fail closed is then the only correct behaviour.
 	liveOpenRefused := false
 	for _, f := range injected {
 		if strings.HasPrefix(f, "open /work/h-") {
 			liveOpenRefused = true
+		}
+		if strings.HasPrefix(f, "rename /work/crl_") && strings.Contains(f, " -> /work/h-") && len(injected) == 2 && strings.HasPrefix(injected[0], "rename /work/crl_") {
+			liveOpenRefused = true // move-in refused and move-back refused
 		}
 	}
 	if liveOpenRefused {
